@@ -175,6 +175,9 @@ def run(F, res, tier):
     d = FL.Defs(pe)
     # the two cases may be closures (map / unwrap_or_else) or arms of a match in error() itself
     clos = [F.fns[c] for c in F.closures_of(pe.path)] + [pe]
+    # .. or private helpers of the parser that error() calls (`self.end_of_input()`)
+    clos = [F.fns[q] for q in F.with_helpers(pe.path, depth=1) if q.startswith(PM.P) and q != pe.path and F.fns[q].blocks and F.fns[q] not in clos and
+            q.rsplit("::", 1)[-1] not in PM.EXPECT] + clos
     tok_range = False
     rng_l = None
     for b_, i_, s0 in pe.stmts():
@@ -211,7 +214,7 @@ def run(F, res, tier):
             base = base["base"]
         # src.len() as u32
         cs = [FL.short(callee(t2) or callee_def(t2)) for b2, t2 in cf.calls()]
-        end_ok = "str::len" in cs
+        end_ok = "str::len" in cs or "TextSize::of" in cs
     getpos = False
     for b, t in pe.calls():
         if (callee(t) or "").endswith("[T]::get"):
